@@ -18,6 +18,8 @@
 using namespace xv;
 using namespace c16;
 
+#include "c16_defects.hpp"
+
 static std::vector<GCase> CASES;
 static bool g_strict_bytes = false;
 static bool g_sax_only = false;   // ladder space: SAX2+PSVI validation only
@@ -214,6 +216,7 @@ static void roundtrip(const GCase& g, Ctx& c, RT& rt, bool countKinds = true) {
     for (int k = 1; k < 3; k++)
         for (size_t i = 0; i < vt[0].size(); i++)
             if (vt[0][i] != vt[k][i]) {
+                if (explained_by_datetime(g, vt[0][i], vt[k][i])) { c.count(std::string("known_defect:") + DEFECTS[D_DATETIME].id); continue; }
                 size_t ni = g.instances.size();
                 c.violation("behaviour-differs", in + ",\"pool\":\"" + (k == 1 ? "B" : "C") + "\",\"api\":\"" + (i < ni ? "SAX2" : "DOM") + "\",\"instance\":" + jstr(g.instances[i % ni]) +
                                                      ",\"diff\":" + jstr(first_diff(vt[0][i], vt[k][i])));
@@ -226,8 +229,12 @@ static void roundtrip(const GCase& g, Ctx& c, RT& rt, bool countKinds = true) {
     tick("dumps");
     c.count("model_dump_bytes", da.size());
     for (auto& kv : kc.n) c.count("kind:" + kv.first, kv.second);
-    if (da != db) c.violation("model-differs", in + ",\"pool\":\"B\",\"diff\":" + jstr(first_diff(da, db)));
-    if (da != dc) c.violation("model-differs", in + ",\"pool\":\"C\",\"diff\":" + jstr(first_diff(da, dc)));
+    const std::string* dx[2] = {&db, &dc};
+    for (int k = 0; k < 2; k++) {
+        if (da == *dx[k]) continue;
+        if (explained_by_notation_annotation(g, da, *dx[k])) { c.count(std::string("known_defect:") + DEFECTS[D_NOTATION_ANN].id); continue; }
+        c.violation("model-differs", in + ",\"pool\":\"" + (k ? "C" : "B") + "\",\"diff\":" + jstr(first_diff(da, *dx[k])));
+    }
     if (c.verbose) printf("---- structural dump of A:\n%s", da.c_str());
     // (3) stream equality.  Byte equality of the raw streams is recorded; the verdict is taken on the streams written after neutralising the
     // element-declaration ids (pool-local handles reassigned in load order by RefHash3KeysIdPool::put - the only benign difference on the
@@ -286,6 +293,8 @@ int main(int argc, char** argv) {
     std::string space = a.str("space", "grammars");
     bool thorough = a.str("tier", "quick") == "thorough";
     g_strict_bytes = a.num("strict-bytes", 0) != 0;
+    evaluate_witnesses();
+    if (!g_witness_error.empty()) { fprintf(stderr, "witness evaluation failed: %s\n", g_witness_error.c_str()); return 2; }
     Runner R;
     R.name = space;
     if (space == "grammars") {
